@@ -271,6 +271,13 @@ def spec_laws(ctx):
     return sorted(set(blocks))
 
 
+def replay_cases(ctx):
+    """the recorded witness block, for both owners and all parser modes"""
+    w = json.load(open(ctx.replay))['witness']
+    blk = bytes.fromhex(w['block_hex']) if w['block_hex'] != '-' else b''
+    return [(o, r, blk, w.get('family', 'replay')) for o in ('req', 'rep') for r in (0, 1, -1)]
+
+
 def text(b):
     return bytes(b).decode('latin-1')
 
@@ -280,15 +287,18 @@ def run(ctx):
     rnd = random.Random(ctx.seed * 7919 + 25)
     exe = build(ctx)
     ctx.log('driver built')
-    packed = spec_laws(ctx)
-    ctx.log('spec laws hold; TLC generated %d packed blocks' % len(packed))
-    ctx.cov['spec_packed_blocks'] = len(packed)
-    blocks = [(b, 'spec-packed') for b in packed] + structure_cases(ctx, rnd)
-    # a share of the framing family keeps Content-Length / Transfer-Encoding handling in view of the entry comparison
-    fr = framing_cases(ctx, rnd)
-    rnd.shuffle(fr)
-    blocks += fr[:len(fr) // (2 if ctx.thorough else 6)]
-    cases = all_modes(blocks, rnd, full_families=('shapes', 'spec-packed'))
+    if ctx.replay:
+        cases = replay_cases(ctx)
+    else:
+        packed = spec_laws(ctx)
+        ctx.log('spec laws hold; TLC generated %d packed blocks' % len(packed))
+        ctx.cov['spec_packed_blocks'] = len(packed)
+        blocks = [(b, 'spec-packed') for b in packed] + structure_cases(ctx, rnd)
+        # a share of the framing family keeps Content-Length / Transfer-Encoding handling in view of the entry comparison
+        fr = framing_cases(ctx, rnd)
+        rnd.shuffle(fr)
+        blocks += fr[:len(fr) // (2 if ctx.thorough else 6)]
+        cases = all_modes(blocks, rnd, full_families=('shapes', 'spec-packed'))
     outs, deaths = drive(ctx, exe, cases)
     for idx, rc, err in deaths:
         ctx.violation('HttpHeader::parse died (rc=%s) on %s block %r: %s' % (rc, cases[idx][0], cases[idx][2][:200], err[-400:]),
@@ -329,7 +339,7 @@ def run(ctx):
     ctx.cov['by_owner_mode'] = {'%s/%d' % (o, r): sum(1 for x in recs if x['owner'] == o and x['relaxed'] == r) for o in ('req', 'rep') for r in (0, 1, -1)}
     ctx.cov['max_block_bytes'] = max(len(o['block']) for o in recs)
     ctx.cov['ub_reports'] = sum(1 for o in recs if o['ub'])
-    for o in (recs[len(recs) // 5], recs[len(recs) // 2], recs[-1]):
+    for o in ([recs[len(recs) // 5], recs[len(recs) // 2], recs[-1]] if recs else []):
         ctx.sample({'owner': o['owner'], 'relaxed': o['relaxed'], 'block': text(o['block'])[:100], 'ok': o['ok'],
                     'entries': [[text(e['n']), text(e['v'])] for e in o['entries']][:5]})
     ctx.cov['rule'] = ('blocks of 0..2 (thorough: 3, sampled) fields from %d field shapes (regular, whitespace variants, bad names, bare CR, NUL, '
